@@ -437,3 +437,98 @@ def online_walks(g, n: int, rng, *, max_walks: int, max_len: int = 60, key=None,
                             "errors": {k: repr(v) for k, v in w.sched.errors.items()},
                             "results": {k: v[0] for k, v in w.results.items()}})
     return results, len(covered), len(all_edges)
+
+
+def real_process_smoke(n_launchers: int = 4, idle_timeout: float = 1.5) -> dict:
+    """Real processes, real flock, real time (thorough only): n concurrent real launch() calls of one real worker
+    command, then the worker's real idle exit, then another launch.  The observable history is judged by
+    LauncherMonitor like every other run (worker processes are found by their socket path in /proc/*/cmdline)."""
+    import subprocess
+    import threading
+    import time
+
+    from drivers._conc2_poolsvc import worker_cmd
+
+    d = tempfile.mkdtemp(prefix="c33p", dir="/tmp")
+    mon: list[dict] = []
+    facts: dict = {}
+
+    def ev(e, **k):
+        mon.append({"e": e, "w": 0, "i": 0, "ok": False, **k})
+
+    def workers() -> list[int]:
+        out = subprocess.run(["pgrep", "-f", d], capture_output=True, text=True).stdout.split()
+        return sorted(int(x) for x in out)
+
+    seen: dict[int, int] = {}
+
+    def note_workers():
+        live = workers()
+        for pid in live:
+            if pid not in seen:
+                seen[pid] = len(seen) + 1
+                ev("Spawn", w=seen[pid])
+                ev("Listening", w=seen[pid])
+        for pid, wid in seen.items():
+            if pid not in live and wid > 0:
+                ev("Exit", w=wid)
+                seen[pid] = -wid
+        return live
+
+    try:
+        cfg = L.LaunchConfig(worker_argv=tuple(worker_cmd()), state_dir=d, idle_timeout=idle_timeout)
+        results: dict[int, object] = {}
+
+        def body(i):
+            try:
+                results[i] = L.launch(cfg)
+            except Exception as e:  # noqa: BLE001
+                results[i] = e
+
+        ths = [threading.Thread(target=body, args=(i,)) for i in range(1, n_launchers + 1)]
+        for t in ths:
+            t.start()
+        for t in ths:
+            t.join(90)
+        live = note_workers()
+        facts["workers_after_concurrent_launches"] = len(live)
+        paths = {r for r in results.values() if isinstance(r, str)}
+        facts["distinct_paths"] = len(paths)
+        facts["launch_errors"] = [repr(r) for r in results.values() if not isinstance(r, str)]
+        for i, r in sorted(results.items()):
+            if isinstance(r, str):
+                c = socket.socket(socket.AF_UNIX)
+                c.settimeout(2)
+                try:
+                    c.connect(r)
+                    ok = True
+                except OSError:
+                    ok = False
+                finally:
+                    c.close()
+                ev("Return", i=i, ok=ok)
+        t0 = time.time()
+        while workers() and time.time() - t0 < idle_timeout + 20:
+            time.sleep(0.2)
+        facts["idle_exit_after_s"] = round(time.time() - t0, 1)
+        note_workers()
+        body(99)
+        note_workers()
+        r = results[99]
+        ok = False
+        if isinstance(r, str):
+            c = socket.socket(socket.AF_UNIX)
+            c.settimeout(2)
+            try:
+                c.connect(r)
+                ok = True
+            except OSError:
+                pass
+            finally:
+                c.close()
+            ev("Return", i=99, ok=ok)
+        facts["relaunch_ok"] = ok
+    finally:
+        subprocess.run(["pkill", "-f", d], capture_output=True)
+        shutil.rmtree(d, ignore_errors=True)
+    return {"mon": mon, "facts": facts}
